@@ -108,6 +108,10 @@ func (it *Generator) Send(arg Object) (Object, error) {
 	if it.Frame.Yielded {
 		return res, nil
 	}
+	// The return value of the generator is carried by StopIteration
+	if res != nil && res != None {
+		return nil, exceptionNew(StopIteration, Tuple{res})
+	}
 	return nil, StopIteration
 }
 
